@@ -151,7 +151,8 @@ def run(ctx):
         fc = st.float_case(ctx.rng, c)
         why = oracle(fc)
         if why:
-            ctx.fail(why, fc, {'kinds': sorted(pipes.kinds_in(c['spec']))})
+            small = st.shrink(fc, lambda x: oracle(x))
+            ctx.fail(oracle(small) or why, small, {'kinds': sorted(pipes.kinds_in(c['spec']))})
 
     for _ in range(ctx.n(2, 10)):
         res = probe_unwrap(ctx.rng)
